@@ -1,6 +1,7 @@
 package props
 
 import (
+	"strings"
 	"bytes"
 	"encoding/binary"
 	"fmt"
@@ -174,6 +175,10 @@ func TestC30(t *testing.T) {
 		r.Case(fmt.Sprintf("helpers|%x", seed[:6]), true)
 		// salted seeds
 		salts := []string{"", "ALPS", "a", "b", "ALPS2", string(randBytes(rg, 1+rg.Intn(40)))}
+		if i%16 == 0 {
+			// salts that differ only by trailing NUL bytes (HMAC pads its key with zeros)
+			salts = append(salts, "\x00", "ALPS\x00\x00")
+		}
 		seen := map[tls.PRNGSeed]string{}
 		for _, s := range salts {
 			got, err := tls.VerifSaltedSeed(&seed, s)
@@ -189,7 +194,11 @@ func TestC30(t *testing.T) {
 				viol("prng_salted_nondeterministic", fmt.Sprintf("salted seed for %q differs between calls", s))
 			}
 			if prev, dup := seen[*got]; dup && prev != s { // the random salt may coincide with a fixed one
-				viol("prng_salted_collision", fmt.Sprintf("salts %q and %q give the same seed", prev, s))
+				class := "other"
+				if strings.TrimRight(prev, "\x00") == strings.TrimRight(s, "\x00") && len(prev) <= 136 && len(s) <= 136 {
+					class = "salts_differ_only_by_trailing_NUL_bytes"
+				}
+				r.Violation(map[string]string{"kind": "prng_salted_collision", "class": class}, fmt.Sprintf("salts %q and %q give the same seed", prev, s), map[string]any{"seed": fmt.Sprintf("%x", seed[:]), "case": i})
 			}
 			seen[*got] = s
 			if *got == seed && s != "" {
